@@ -47,6 +47,16 @@ func persist(seg segment.Segment) (b []byte, n int64, err error) {
 	return buf.Bytes(), n, err
 }
 
+// persistCh: WriteTo with a caller-supplied channel (open and never closed: the write must behave
+// exactly as with a nil channel).
+func persistCh(seg segment.Segment, ch chan struct{}) (b []byte, n int64, err error) {
+	var buf bytes.Buffer
+	if msg := explore.Guard(func() { n, err = seg.WriteTo(&buf, ch) }); msg != "" {
+		return nil, 0, fmt.Errorf("%s", msg)
+	}
+	return buf.Bytes(), n, err
+}
+
 func exact(b []byte) []byte {
 	c := make([]byte, len(b))
 	copy(c, b)
